@@ -952,12 +952,130 @@ def check_fv(defs):
             raise TranslateError("%s: free variables %s, expected %s" % (name, list(fv), pins[name]))
 
 
+# ---------------------------------------------------------------- the expand loops
+EXPAND_FUNCS=["dtw_expand_wps_slice","dtw_expand_wps_slice_affinity"]
+
+def norm(t): return re.sub(r"\s+","",t)
+
+def exec_block2(text,state,where,tracked):
+    global TRACKED
+    old = TRACKED
+    TRACKED = tracked
+    try:
+        # support  X += E
+        text = re.sub(r"\b(%s)\s*\+=\s*([^;]+);" % "|".join(tracked),
+                      lambda m: "%s = %s + (%s);" % (m.group(1), m.group(1), m.group(2)), text)
+        return exec_block(text, state, where)
+    finally:
+        TRACKED = old
+
+def analyse_expand():
+    txt=strip_comments(open(os.path.join(REPO,"src/DTAIDistanceC/DTAIDistanceC/dd_dtw.c")).read())
+    res=[]
+    for fn in EXPAND_FUNCS:
+        m=re.search(r"^void\s+%s\s*\(([^;{}]*?)\)\s*\{"%re.escape(fn),txt,flags=re.M|re.S)
+        if not m: raise TranslateError("function %s not found"%fn)
+        st=m.end()-1; body=txt[st:match_brace(txt,st)+1]
+        nb=norm(body)
+        # prologue: the clipped slice bounds
+        for v,src in (("rbs","rb"),("res","re"),("cbs","cb"),("ces","ce")):
+            if "idx_t%s=0;if(%s>0){%s=%s-1;}"%(v,src,v,src) not in nb: raise TranslateError("%s: %s is not max(%s-1,0)"%(fn,v,src))
+        if "idx_tfwidth=ce-cb;" not in nb: raise TranslateError(fn+": fwidth")
+        if not re.search(r"for\(idx_ti=0;i<\(re-rb\)\*\(ce-cb\);i\+\+\)\{full\[i\]=-?INFINITY;\}",nb): raise TranslateError(fn+": initial fill")
+        if "if(rb==0&&cb==0){full[0]=wps[0];}" not in nb: raise TranslateError(fn+": corner")
+        mt=re.search(r"if\(rb==0\)\{wpsi=1\+cbs;for\(ci=cbs;ci<MIN3\(ces,p\.width-1,l2\);ci\+\+\)\{full\[ci\+1-cb\]=wps\[wpsi\];wpsi\+\+;\}\}",nb)
+        if not mt: raise TranslateError(fn+": top row")
+        # every index expression
+        fidx=sorted(set(norm(x) for x in re.findall(r"full\[([^\]]+)\]",body)))
+        widx=sorted(set(norm(x) for x in re.findall(r"wps\[([^\]]+)\]",body)))
+        okf={"i","0","ci+1-cb","fwidth*(ri+1-rb)","(ri+1-rb)*fwidth+ci+1-cb","(ri+1-rb)*fwidth+min_ci-cb"}
+        okw={"0","wpsi","p.width*(ri+1)","(ri+1)*p.width+wpsi","(ri+1)*p.width+0"}
+        if set(fidx)-okf: raise TranslateError("%s: index full[%s]"%(fn,sorted(set(fidx)-okf)))
+        if set(widx)-okw: raise TranslateError("%s: index wps[%s]"%(fn,sorted(set(widx)-okw)))
+        # the row loops
+        loops=[]
+        for m2 in re.finditer(r"for\s*\(\s*ri\s*=\s*([^;]+);\s*ri\s*<\s*([^;]+);\s*ri\+\+\s*\)\s*\{",body):
+            b=m2.end()-1; e=match_brace(body,b)
+            loops.append((m2.start(),b,e,norm(m2.group(1)),norm(m2.group(2))))
+        want=[("rbs","MIN(res,p.ri1)"),("MAX(rbs,p.ri1)","MIN(res,p.ri2)"),("MAX(rbs,p.ri2)","MIN(res,p.ri3)"),("MAX(rbs,p.ri3)","MIN(res,l1)")]
+        if [(l[3],l[4]) for l in loops]!=want: raise TranslateError("%s: row loops %s"%(fn,[(l[3],l[4]) for l in loops]))
+        prev_end=body.index("wpsi++;",0)  # end of the top row part
+        prev_end=body.index("}",body.index("}",prev_end)+1)  # closes the for and the if(rb == 0)
+        state={}
+        for R,(s,b,e,lo,hi) in zip("ABCD",loops):
+            where="%s region %s"%(fn,R)
+            pre=body[prev_end+1:s]
+            # region A sits inside `if (rbs < p.ri1) {`, B in `if (rbs < p.ri2) {`, C in `if (rbs < p.ri3) {`: guards that only skip the loop
+            pre2=re.sub(r"if\s*\(\s*rbs\s*<\s*p\.ri[123]\s*\)\s*\{","",pre)
+            pre2=pre2.replace("}","") if R in "A" else pre2
+            # drop unmatched closing braces left over from the previous region's guard
+            depth=0; out=[]
+            for ch in pre2:
+                if ch=="{": depth+=1; out.append(ch)
+                elif ch=="}":
+                    if depth>0: depth-=1; out.append(ch)
+                else: out.append(ch)
+            pre2="".join(out)
+            state=exec_block2(pre2,{},where,("min_ci","max_ci","wpsi_start"))
+            inner=body[b+1:e]
+            d1=depth1(inner)
+            incs=set(re.findall(r"\b(min_ci|max_ci|wpsi_start)\s*\+\+\s*;",d1))
+            ni=norm(inner)
+            mw=re.search(r"if\(cbs<=min_ci\)\{wpsi=(1|wpsi_start);\}else\{wpsi=(1|wpsi_start)\+\(cbs-min_ci\);\}",ni)
+            if not mw or mw.group(1)!=mw.group(2): raise TranslateError(where+": wpsi start")
+            K=mw.group(1)
+            mc=re.search(r"for\(ci=MAX\(cbs,min_ci\);ci<MIN\(ces,(max_ci|l2)\);ci\+\+\)\{full\[\(ri\+1-rb\)\*fwidth\+ci\+1-cb\]=wps\[\(ri\+1\)\*p\.width\+wpsi\];wpsi\+\+;\}",ni)
+            if not mc: raise TranslateError(where+": cell loop")
+            hi_var=mc.group(1)
+            col0="if(cb==0){full[fwidth*(ri+1-rb)]=wps[p.width*(ri+1)];}" in ni
+            cslot0="if(cb<=min_ci&&min_ci<ce){full[(ri+1-rb)*fwidth+min_ci-cb]=wps[(ri+1)*p.width+0];}" in ni
+            rest=ni
+            for piece in (mw.group(0),mc.group(0),"if(cb==0){full[fwidth*(ri+1-rb)]=wps[p.width*(ri+1)];}","if(cb<=min_ci&&min_ci<ce){full[(ri+1-rb)*fwidth+min_ci-cb]=wps[(ri+1)*p.width+0];}","min_ci++;","max_ci++;","wpsi_start++;"):
+                rest=rest.replace(piece,"")
+            if rest: raise TranslateError(where+": unexpected statements %r"%rest[:80])
+            res.append({"fn":fn,"region":R,"min0":state.get("min_ci"),"max0":state.get("max_ci") if hi_var=="max_ci" else "l2",
+                        "w0":"1" if K=="1" else state.get("wpsi_start"),
+                        "dmin":1 if "min_ci" in incs else 0,"dmax":1 if ("max_ci" in incs and hi_var=="max_ci") else 0,
+                        "dw":1 if ("wpsi_start" in incs and K=="wpsi_start") else 0,"col0":col0,"cslot0":cslot0})
+            prev_end=e
+    return res
+
+def emit_expand(res):
+    lines=["(* GENERATED by tools/translate_c.py from src/DTAIDistanceC/DTAIDistanceC/dd_dtw.c -- do not edit *)",
+           "(* the four row regions of dtw_expand_wps_slice / dtw_expand_wps_slice_affinity *)",
+           "From Coq Require Import ZArith Bool String List.","From DVGen Require Import Gen_cfill.","Import ListNotations.","Open Scope Z_scope.","",
+           "Record expand_region := {","  er_function : string; er_region : region_id;",
+           "  (* arguments: l2 window ldiff ldiffr ldiffc ri2 ri3 rbs ces *)",
+           "  er_min0 : Z -> Z -> Z -> Z -> Z -> Z -> Z -> Z -> Z -> Z;",
+           "  er_max0 : Z -> Z -> Z -> Z -> Z -> Z -> Z -> Z -> Z -> Z;",
+           "  er_w0 : Z -> Z -> Z -> Z -> Z -> Z -> Z -> Z -> Z -> Z;",
+           "  er_dmin : Z; er_dmax : Z; er_dw : Z; er_col0 : bool; er_cslot0 : bool }.","",
+           "Definition expand_regions : list expand_region := ["]
+    rows=[]
+    A="fun l2 window ldiff ldiffr ldiffc ri2 ri3 rbs ces => "
+    for r in res:
+        rows.append('  {| er_function := "%s"; er_region := R%s;\n     er_min0 := %s%s;\n     er_max0 := %s%s;\n     er_w0 := %s%s;\n     er_dmin := %d; er_dmax := %d; er_dw := %d; er_col0 := %s; er_cslot0 := %s |}'%(
+            r["fn"],r["region"],A,r["min0"],A,r["max0"],A,r["w0"],r["dmin"],r["dmax"],r["dw"],str(r["col0"]).lower(),str(r["cslot0"]).lower()))
+    lines.append(";\n".join(rows)); lines.append("].")
+    return "\n".join(lines)+"\n"
+
+
 def coq_str_list(xs):
     return "[" + "; ".join('"%s"' % x for x in xs) + "]"
 
 
 def _main():
     outdir = sys.argv[1] if len(sys.argv) > 1 else "/verif/coq/gen"
+    try:
+        text = emit_expand(analyse_expand())
+    except (TranslateError, OSError) as exc:
+        print("TRANSLATE-ERROR: translate_c: %s" % exc)
+        sys.exit(2)
+    os.makedirs(outdir, exist_ok=True)
+    p = os.path.join(outdir, "Gen_cexpand.v")
+    old = open(p).read() if os.path.exists(p) else None
+    if old != text:
+        open(p, "w").write(text)
     try:
         text = emit_trace(analyse_trace())
     except (TranslateError, OSError) as exc:
